@@ -1027,6 +1027,10 @@ func (c *StructConverter) From(obj interface{}) (Object, error) {
 	if typ != c.typ {
 		return nil, errz.TypeErrorf("type error: expected %s (%s given)", c.typ, typ)
 	}
+	// A nil pointer is nil in the script, not a proxy of nothing
+	if v := reflect.ValueOf(obj); v.Kind() == reflect.Pointer && v.IsNil() {
+		return Nil, nil
+	}
 	// Wrap the object in a proxy
 	return NewProxy(obj)
 }
